@@ -15,6 +15,7 @@ import (
 	"fmt"
 	"math/big"
 	"regexp"
+	"runtime"
 	"strings"
 	"sync/atomic"
 	"time"
@@ -27,6 +28,16 @@ type ival struct {
 var (
 	bigOne = big.NewInt(1)
 )
+
+func debugStack() string {
+	buf := make([]byte, 4096)
+	n := runtime.Stack(buf, false)
+	ls := strings.Split(string(buf[:n]), "\n")
+	if len(ls) > 12 {
+		ls = ls[5:12]
+	}
+	return strings.Join(ls, "\n")
+}
 
 func pow2(n int) *big.Int { return new(big.Int).Lsh(bigOne, uint(n)) }
 
@@ -107,6 +118,9 @@ func (c *intCtx) tighten(v *Term, lo, hi *big.Int) {
 }
 
 func (c *intCtx) fail() (string, *ival) {
+	if c.ok && verbose {
+		debugf("intmode refused at:\n%s", debugStack())
+	}
 	c.ok = false
 	return "0", &ival{big.NewInt(0), big.NewInt(0)}
 }
@@ -172,6 +186,7 @@ func (c *intCtx) tr(t *Term) (string, *ival) {
 			e = "(* " + ea + " " + eb + ")"
 		}
 		if !r.within(mach) {
+			debugf("intmode: possible overflow: %s range [%s,%s] operands [%s,%s] [%s,%s]", t.String(), r.lo, r.hi, ra.lo, ra.hi, rb.lo, rb.hi)
 			return c.fail()
 		}
 	case OpNeg:
@@ -237,6 +252,7 @@ func (c *intCtx) tr(t *Term) (string, *ival) {
 	case OpExtract:
 		// truncation of a value that fits
 		if t.Val&0xff != 0 {
+			debugf("intmode: extract with low bit != 0: %s", t.String())
 			return c.fail()
 		}
 		ea, ra := c.tr(t.A)
